@@ -20,6 +20,89 @@ fn main() {
             }
             out.flush().unwrap();
         }
+        "quiet" => {
+            // execute every request of the file, print nothing: whatever appears on fd 1 / fd 2 comes from the library
+            let langs = exec::Langs::new();
+            let content = std::fs::read_to_string(&args[2]).unwrap();
+            let mut sink = 0usize;
+            for line in content.lines() {
+                sink += exec::exec(&langs, line).len();
+            }
+            std::hint::black_box(sink);
+        }
+        "threads" => {
+            // one shared set of interpreters, N threads, every answer compared with the answer of a fresh interpreter
+            fn assert_send_sync<T: Send + Sync>() {}
+            assert_send_sync::<text2num::Language>();
+            assert_send_sync::<text2num::lang::English>();
+            assert_send_sync::<text2num::lang::French>();
+            assert_send_sync::<text2num::lang::Spanish>();
+            assert_send_sync::<text2num::lang::Portuguese>();
+            assert_send_sync::<text2num::lang::Italian>();
+            assert_send_sync::<text2num::lang::German>();
+            assert_send_sync::<text2num::lang::Dutch>();
+            let content = std::fs::read_to_string(&args[2]).unwrap();
+            let nthreads: usize = args[3].parse().unwrap();
+            let rounds: usize = args[4].parse().unwrap();
+            let seed: u64 = args[5].parse().unwrap();
+            let reqs: Vec<String> = content.lines().map(|l| l.to_string()).collect();
+            // expected: each request on its own fresh interpreters
+            let expected: Vec<String> = reqs
+                .iter()
+                .map(|r| {
+                    let fresh = exec::Langs::new();
+                    exec::exec(&fresh, r)
+                })
+                .collect();
+            let shared = std::sync::Arc::new(exec::Langs::new());
+            let reqs = std::sync::Arc::new(reqs);
+            let expected = std::sync::Arc::new(expected);
+            // history dependence on a single thread first: the whole list, in order, on the shared interpreters
+            let mut mism: Vec<(usize, String)> = Vec::new();
+            for (i, r) in reqs.iter().enumerate() {
+                let got = exec::exec(&shared, r);
+                if got != expected[i] {
+                    mism.push((i, got));
+                }
+            }
+            let mut handles = Vec::new();
+            for t in 0..nthreads {
+                let shared = shared.clone();
+                let reqs = reqs.clone();
+                let expected = expected.clone();
+                handles.push(std::thread::spawn(move || {
+                    let mut st = seed.wrapping_add(0x9E3779B97F4A7C15u64.wrapping_mul(t as u64 + 1));
+                    let mut bad: Vec<(usize, String)> = Vec::new();
+                    let mut calls = 0usize;
+                    for _ in 0..rounds {
+                        for _ in 0..reqs.len() {
+                            st = st.wrapping_add(0x9E3779B97F4A7C15);
+                            let mut z = st;
+                            z = (z ^ (z >> 30)).wrapping_mul(0xBF58476D1CE4E5B9);
+                            z = (z ^ (z >> 27)).wrapping_mul(0x94D049BB133111EB);
+                            z ^= z >> 31;
+                            let i = (z % reqs.len() as u64) as usize;
+                            let got = exec::exec(&shared, &reqs[i]);
+                            calls += 1;
+                            if got != expected[i] && bad.len() < 20 {
+                                bad.push((i, got));
+                            }
+                        }
+                    }
+                    (calls, bad)
+                }));
+            }
+            let mut total = reqs.len();
+            for h in handles {
+                let (calls, bad) = h.join().unwrap();
+                total += calls;
+                mism.extend(bad);
+            }
+            println!("calls={} mismatches={}", total, mism.len());
+            for (i, got) in mism.iter().take(20) {
+                println!("MISMATCH\t{}\t{}\t{}", reqs[*i], got, expected[*i]);
+            }
+        }
         "cc-dump" => {
             // table of the `char` facts the crate takes from std, for the Lean driver
             let mut out = BufWriter::new(io::stdout().lock());
